@@ -164,6 +164,14 @@ impl Searcher {
         // Mark that we've seen this state - this will help us avoid draws by repetition in winning states
         state_history.increment(game_state_hash);
 
+        // A position without legal moves (checkmate or stalemate) has no move to report,
+        // and deepening would never end because every iteration is a single node
+        let max_depth = if MoveGenerator::compute_legal_moves(&game_state).is_empty() {
+            0
+        } else {
+            max_depth
+        };
+
         for depth in 0..max_depth {
             // Don't bother doing multiple threads if we're only searching a few moves
             // as the OS overhead will likely outweigh the benefits of parallelism
@@ -258,7 +266,11 @@ impl Searcher {
 
                     best_mv = line.first().copied();
 
-                    assert!(!line.is_empty());
+                    // The root entry can have been displaced from a full bucket by the time
+                    // we read it back; there is no line to report for this iteration then
+                    if line.is_empty() {
+                        continue;
+                    }
 
                     // Make sure that the line we're returning is actually valid
                     debug_assert!({
@@ -290,19 +302,17 @@ impl Searcher {
                 Err(SearchInterrupt) => {
                     if let Some(x) = transpositions.find(game_state_hash) {
                         if x.evaluation > best_eval {
-                            f(StatusEvent::BestMove {
-                                evaluation: x.evaluation,
-                                line: {
-                                    let line: Vec<Move> = transpositions
-                                        .iter_moves(&hasher, &game_state, depth)
-                                        .map(|r| r.0)
-                                        .collect();
+                            let line: Vec<Move> = transpositions
+                                .iter_moves(&hasher, &game_state, depth)
+                                .map(|r| r.0)
+                                .collect();
 
-                                    assert!(!line.is_empty());
-
-                                    line
-                                },
-                            });
+                            if !line.is_empty() {
+                                f(StatusEvent::BestMove {
+                                    evaluation: x.evaluation,
+                                    line,
+                                });
+                            }
                         }
                     }
 
